@@ -496,8 +496,18 @@ class FuncGen(object):
         return out
 
 
+NO_SNAN_ARGS = True    # known finding C02-snan-*: signalling-NaN call arguments of case-mode scripts are quieted (counted)
+
+
 def gen_args(ch, params):
-    return [draw_value(ch, p) for p in params]
+    out = []
+    for p in params:
+        v = draw_value(ch, p)
+        if NO_SNAN_ARGS and is_snan(p, v):
+            EXCLUDED['snan_immediate'] += 1
+            v = quiet(p, v)
+        out.append(v)
+    return out
 
 
 def expr_module(ch, feat, nfuncs, result_types=None, max_params=4):
@@ -534,7 +544,7 @@ def general_module(ch, feat, nfuncs=8, host_funcs=0, with_trace=False, nglobals=
         rs = () if ch.below(4) == 0 else (ch.pick(feat.types),)
         m.imports.append((b'env', b'h%d' % h, 'func', m.type_index(ps, rs)))
     for g in range(imported_globals):
-        m.imports.append((b'env', b'ig%d' % g, 'global', (ch.pick(feat.types), False)))
+        m.imports.append((b'env', b'ig%d' % g, 'global', (I32 if g == 0 else ch.pick(feat.types), False)))
     if imported_table:
         m.imports.append((b'env', b'tab', 'table', (16 + ch.below(16), None)))
     nimp = m.n_imported_funcs()
@@ -561,6 +571,7 @@ def general_module(ch, feat, nfuncs=8, host_funcs=0, with_trace=False, nglobals=
     if recursion:
         extra = recursion_templates(ch, m, nimp + nfuncs)
     nall = nimp + nfuncs + len(extra)
+    view = _SigView(m, nimp, sigs, extra)
     # table + element segments
     indirect = None
     if table or imported_table:
@@ -571,7 +582,7 @@ def general_module(ch, feat, nfuncs=8, host_funcs=0, with_trace=False, nglobals=
         nseg = 1 + ch.below(4)
         for s in range(nseg):
             ln = 1 + ch.below(5)
-            use_g = imported_globals and ch.below(3) == 0 and m.imports[[i for i, im in enumerate(m.imports) if im[2] == 'global'][0]][3][0] == I32
+            use_g = bool(imported_globals) and ch.below(2) == 0
             if use_g:
                 off = None          # offset = imported global 0 (value fixed by the harness: see info['glob_values'])
                 base = info.setdefault('elem_global_value', ch.below(max(tsize - ln, 1)))
@@ -598,12 +609,12 @@ def general_module(ch, feat, nfuncs=8, host_funcs=0, with_trace=False, nglobals=
             ind = []
             for slot, fi in sorted(info['table_map'].items()):
                 if fi < nimp or fi < fidx or fi >= nimp + nfuncs:
-                    ft = m.func_type(fi) if fi < nimp or fi >= nimp + nfuncs else (tuple(sigs[fi - nimp][0]), (sigs[fi - nimp][1],) if sigs[fi - nimp][1] else ())
+                    ft = view.func_type(fi)
                     ind.append((slot, m.type_index(ft[0], ft[1])))
         g = FuncGen(ch, m, feat, ps, rs, callable_funcs=callable_ if feat.calls else (), trace_func=trace_idx,
                     indirect=ind, mem_mask=mem_mask)
         # functions that are not generated yet have no entry in m.funcs: give the generator a view of all signatures
-        g.m = _SigView(m, nimp, sigs, extra)
+        g.m = view
         body = g.body()
         t = m.type_index(ps, (rs,) if rs else ())
         m.funcs.append(Func(t, g.locals, body))
